@@ -3692,4 +3692,198 @@ theorem preDev_clean (reg : Registry) (opts : Opts) (plug : Plug) {q : Entry →
   have := hinv.trees t ht
   exact ⟨hne t ht, this.1.2 (hne t ht), this.1.1, this.2⟩
 
+/-- The last pass either leaves a root error somewhere, or — when it applied nothing — leaves the
+forest as it was. -/
+theorem leftover_forest (reg : Registry) (left : Array Nat) (s : PState) (hB : InvB s) :
+    let r := left.foldl (fun (acc : PState × Nat) id =>
+      let (s, p, _) := augmentTree reg id true acc.1
+      (s, acc.2 + p)) (s, 0)
+    (∃ id, RootErrAt r.1.forest id) ∨ (r.2 = 0 → r.1.forest = s.forest) := by
+  intro r
+  have key : InvB r.1 ∧ ((∃ id, RootErrAt r.1.forest id) ∨ (r.2 = 0 → r.1.forest = s.forest)) := by
+    simp only [r]
+    rw [← Array.foldl_toList]
+    refine foldl_inv (fun (acc : PState × Nat) =>
+      InvB acc.1 ∧ ((∃ id, RootErrAt acc.1.forest id) ∨ (acc.2 = 0 → acc.1.forest = s.forest)))
+      _ _ _ ⟨hB, Or.inr (fun _ => rfl)⟩ ?_
+    rintro ⟨s1, cnt⟩ id _ ⟨jB, jE⟩
+    dsimp only at jB jE ⊢
+    have hB' := invB_augmentTree reg id true s1 jB
+    obtain ⟨un, fle, hp, hsub, hk, herr, hsame⟩ := augmentTree_ok reg id true s1
+    generalize augmentTree reg id true s1 = r' at hB' fle hp hk herr hsame ⊢
+    obtain ⟨s', p, k⟩ := r'
+    dsimp only at hB' fle hp hk herr hsame ⊢
+    refine ⟨hB', ?_⟩
+    rcases jE with ⟨id0, h0⟩ | jE
+    · exact Or.inl ⟨id0, h0.mono fle⟩
+    · cases un with
+      | nil =>
+        right
+        intro h0
+        have hc : cnt = 0 := by omega
+        have hp0 : p = 0 := by omega
+        rw [hsame hp0 rfl]; exact jE hc
+      | cons a t =>
+        left
+        obtain ⟨p0, hp0, h1, h2⟩ := pendingOf_ne_nil s1 id (List.ne_nil_of_mem (hsub a (by simp)))
+        exact ⟨id, herr rfl (by simp) (by rw [← h1]; exact jB p0 hp0 h2)⟩
+  exact key.2
+
+theorem choiceCases_fixAll (s : PState) : ForestAll ChoiceCases (fixAll s).forest := by
+  intro t ht
+  simp only [fixAll, List.mem_map] at ht
+  obtain ⟨⟨i, e⟩, _, rfl⟩ := ht
+  exact fixChoice_cases e
+
+/-- After a clean `Process`, before the deviations, every child of every choice is a case. -/
+theorem preDev_choiceCases (reg : Registry) (opts : Opts) (plug : Plug)
+    (h : (processAll reg opts plug).errors = []) : ForestAll ChoiceCases (preDev reg opts plug).forest := by
+  obtain ⟨_, _, h3, _, _⟩ := processAll_clean reg opts plug h
+  have hl := augmentLoop_inv reg ((pending0 reg opts plug).foldl (fun n p => n + p.2.length) 0 + 2)
+    ((augOrder reg).map (·.seq)).toArray (pstate0 reg opts plug) (invB_pstate0 reg opts plug) (invA_pstate0 reg opts plug)
+  have hf := leftover_forest reg (afterLoop reg opts plug).1 (fixAll (afterLoop reg opts plug).2) (invB_fixAll _ hl.1)
+  unfold preDev at h3 ⊢
+  split
+  · exact choiceCases_fixAll _
+  · rename_i happ
+    simp only [happ, if_false] at h3
+    rcases hf with ⟨id, herr⟩ | hf
+    · exact absurd h3 (ownErr_forestErrs _ _ herr)
+    · have h0 : (leftoverPass reg opts plug).2 = 0 := by
+        have : ¬ (leftoverPass reg opts plug).2 > 0 := happ
+        omega
+      have := hf h0
+      unfold leftoverPass
+      rw [this]
+      exact choiceCases_fixAll _
+
+/-! ### updates by a function that is harmless wherever it is applied -/
+
+theorem everyNode_updateAt_all (q : Entry → Bool)
+    (hq : ∀ d c i o c' i' o', c.map hdr = c'.map hdr → i.map hdr = i'.map hdr → o.map hdr = o'.map hdr →
+      q (.mk d c i o) = q (.mk d c' i' o'))
+    (f : Entry → Entry) (hf : ∀ x, everyNode q x = true → everyNode q (f x) = true) (hh : ∀ x, hdr (f x) = hdr x) :
+    ∀ (p : Path) (e : Entry), everyNode q e = true → everyNode q (e.updateAt p f) = true ∧ hdr (e.updateAt p f) = hdr e := by
+  intro p
+  induction p with
+  | nil => intro e h; exact ⟨hf e h, hh e⟩
+  | cons s p ih =>
+    intro e h
+    cases e with | mk d c i o =>
+    rw [everyNode_mk] at h
+    obtain ⟨h1, h2, h3, h4⟩ := h
+    cases s with
+    | child k =>
+      simp only [Entry.updateAt]
+      refine ⟨?_, rfl⟩
+      rw [everyNode_mk]
+      refine ⟨?_, ?_, h3, h4⟩
+      · rw [hq d _ i o c i o ?_ rfl rfl]; exact h1
+        simp only [List.map_map]
+        apply List.map_congr_left
+        intro x hx
+        simp only [Function.comp]
+        split
+        · exact (ih x (h2 x hx)).2
+        · rfl
+      · intro x hx
+        simp only [List.mem_map] at hx
+        obtain ⟨y, hy, rfl⟩ := hx
+        split
+        · exact (ih y (h2 y hy)).1
+        · exact h2 y hy
+    | input =>
+      simp only [Entry.updateAt]
+      refine ⟨?_, rfl⟩
+      rw [everyNode_mk]
+      refine ⟨?_, h2, ?_, h4⟩
+      · rw [hq d c _ o c i o rfl ?_ rfl]; exact h1
+        simp only [List.map_map]
+        apply List.map_congr_left
+        intro x hx
+        exact (ih x (h3 x hx)).2
+      · intro x hx
+        simp only [List.mem_map] at hx
+        obtain ⟨y, hy, rfl⟩ := hx
+        exact (ih y (h3 y hy)).1
+    | output =>
+      simp only [Entry.updateAt]
+      refine ⟨?_, rfl⟩
+      rw [everyNode_mk]
+      refine ⟨?_, h2, h3, ?_⟩
+      · rw [hq d c i _ c i o rfl rfl ?_]; exact h1
+        simp only [List.map_map]
+        apply List.map_congr_left
+        intro x hx
+        exact (ih x (h4 x hx)).2
+      · intro x hx
+        simp only [List.mem_map] at hx
+        obtain ⟨y, hy, rfl⟩ := hx
+        exact (ih y (h4 y hy)).1
+
+theorem hdrLocal_uHere : ∀ d c i o c' i' o', c.map hdr = c'.map hdr → i.map hdr = i'.map hdr → o.map hdr = o'.map hdr →
+    uHere (.mk d c i o) = uHere (.mk d c' i' o') := by
+  intro d c i o c' i' o' hc hi ho
+  have hiff : ∀ (d : EData) (c i o : List Entry), uHere (.mk d c i o) = true ↔
+      (names1 c).Nodup ∧ i.length ≤ 1 ∧ o.length ≤ 1 := by
+    intro d c i o
+    simp only [uHere, Entry.dir, Entry.inp, Entry.out, Bool.and_eq_true]
+    constructor
+    · rintro ⟨⟨h1, h2⟩, h3⟩; exact ⟨of_decide_eq_true h1, of_decide_eq_true h2, of_decide_eq_true h3⟩
+    · rintro ⟨h1, h2, h3⟩; exact ⟨⟨decide_eq_true h1, decide_eq_true h2⟩, decide_eq_true h3⟩
+  rw [Bool.eq_iff_iff, hiff, hiff]
+  unfold names1
+  rw [names_hdr c c' hc, length_hdr i i' hi, length_hdr o o' ho]
+
+theorem hdrLocal_choiceCasesHere : ∀ d c i o c' i' o', c.map hdr = c'.map hdr → i.map hdr = i'.map hdr →
+    o.map hdr = o'.map hdr → choiceCasesHere (.mk d c i o) = choiceCasesHere (.mk d c' i' o') := by
+  intro d c i o c' i' o' hc hi ho
+  show (!(d.kind == .choice && d.errors.isEmpty) || c.all (fun x => x.d.kind == .case_)) =
+    (!(d.kind == .choice && d.errors.isEmpty) || c'.all (fun x => x.d.kind == .case_))
+  rw [all_kind_hdr (· == .case_) c c' hc]
+
+/-- After the update, the path leads to the updated node. -/
+theorem getAt_updateAt (f : Entry → Entry) (e : Entry) (hn : (f e).name = e.name) :
+    ∀ (p : Path) (root : Entry), U root → PathOK p → root.getAt p = some e →
+      (root.updateAt p f).getAt p = some (f e) ∧ (root.updateAt p f).name = root.name := by
+  intro p
+  induction p with
+  | nil =>
+    intro root _ _ hg
+    simp only [Entry.getAt, Option.some.injEq] at hg
+    subst hg
+    exact ⟨rfl, hn⟩
+  | cons s p ih =>
+    intro root hu hp hg
+    cases root with | mk d c i o =>
+    cases s with
+    | child k =>
+      obtain ⟨pre, y, post, hc, hy, hgy, hpre, _, hupd⟩ := updateAt_child d c i o k p f e hu (hp k (by simp)) hg
+      rw [hupd]
+      subst hc
+      have huy : U y := ((U_mk _ _ _ _).1 hu).2.1 y (by simp)
+      have hih := ih y huy hp.tail hgy
+      refine ⟨?_, rfl⟩
+      simp only [Entry.getAt, Entry.child?, Entry.dir]
+      have hfind : (pre ++ y.updateAt p f :: post).find? (fun x => x.name == k) = some (y.updateAt p f) := by
+        rw [List.find?_append]
+        have hnone : pre.find? (fun x => x.name == k) = none := by
+          rw [List.find?_eq_none]; intro x hx; simp [hpre x hx]
+        rw [hnone]
+        have hk : ((y.updateAt p f).name == k) = true := by rw [hih.2, hy]; simp
+        simp [List.find?_cons, hk]
+      rw [hfind]; exact hih.1
+    | input =>
+      obtain ⟨y, hi, hgy, hupd⟩ := updateAt_input d c i o p f e hu hg
+      rw [hupd]; subst hi
+      have huy : U y := ((U_mk _ _ _ _).1 hu).2.2.1 y (by simp)
+      have := ih y huy hp.tail hgy
+      exact ⟨by simpa [Entry.getAt, Entry.inp] using this.1, rfl⟩
+    | output =>
+      obtain ⟨y, ho, hgy, hupd⟩ := updateAt_output d c i o p f e hu hg
+      rw [hupd]; subst ho
+      have huy : U y := ((U_mk _ _ _ _).1 hu).2.2.2 y (by simp)
+      have := ih y huy hp.tail hgy
+      exact ⟨by simpa [Entry.getAt, Entry.out] using this.1, rfl⟩
+
 end Goyang.Lemmas.Tree
